@@ -20,6 +20,7 @@ Print Assumptions mips_plain_forms_correct.
 Theorem mips_single_block_correct : forall bg a w i temps s st,
   decode w = Some i -> is_control i = false -> plain_correct bg i ->
   wf_m s -> big s = bg -> pc s = a -> 0 <= a -> a + 8 < 2 ^ 32 -> emb s st -> temps_ok (nth 0 temps []) ->
+  access_ok i s (st_mem st) -> temps_distinct i (nth 0 temps []) ->
   match mirror_block bg a [w] temps with
   | None => True
   | Some l => block_post (mrun [w] s) st (run_block (map snd (fst l)) (snd l) st)
@@ -40,6 +41,7 @@ Theorem mips_branch_block_correct : forall bg a w1 w2 b sl temps s st,
   decode w1 = Some b -> decode w2 = Some sl -> is_control b = true -> is_control sl = false ->
   branch_correct bg b -> plain_correct bg sl -> branch_ok a b -> target_stable b sl s ->
   wf_m s -> big s = bg -> pc s = a -> 0 <= a -> a + 8 < 2 ^ 32 -> emb s st -> temps_ok (nth 1 temps []) ->
+  access_ok sl (link_state b s) (st_mem st) -> temps_distinct sl (nth 1 temps []) ->
   match mirror_block bg a [w1; w2] temps with
   | None => True
   | Some l => block_post (mrun [w1; w2] s) st (run_block (map snd (fst l)) (snd l) st)
